@@ -151,3 +151,70 @@ Theorem C16_cmp_ev_three_way : forall a b,
 Proof. exact (fun a b => conj (CmpWinsortProofs.cmp_ev_core_cmp3 a b) (CmpWinsortProofs.cmp_ev_core_eq a b)). Qed.
 Print Assumptions C16_cmp_ev_three_way.
 
+
+(* ==== window sort from source (unit winsort) ==== *)
+(* starts_unsorted_region, ends_unsorted_region, ring_reset, ring_add, ring_check, find_destination and
+   execute_sort_plan are regenerated from src/emu/ovnisort.c statement by statement (translate/units/winsort.py
+   -> Gen/Winsort_gen.v over Tools/WinsortPre.v; the two circular loops are the primitive bounded iteration
+   for_loop around the TRANSLATED condition, step and body; find_min_clock / sort_buf / write_stream /
+   rebuild_ring / malloc / free are primitives with the meaning WinsortDefs gives them).
+   Proved (Proofs/WinsortGenProofs.v):
+   (1) C16_ring_from_source: the circular buffer ev[] / head / tail / size = n holds exactly the LAST
+       min(len, n-1) events - after len events the event with index k sits in slot k mod n (WinsortGenProofs.Rep) -
+       and ring_reset / ring_add as generated establish / preserve it;
+   (2) C16_find_destination_from_source: under that representation the generated find_destination returns a slot
+       holding the first event of the model's window (WinsortDefs.find_destination: newest entry with a strictly
+       lower clock; the ring start when the ring is not yet full), and -1 exactly when the model finds none;
+   (3) C16_sort_plan_refusal_from_source_partial: execute_sort_plan looks for min(bad0.clock, find_min_clock) = the
+       minimum clock of the region body and returns -1 before writing anything when the model's plan is PlanNoDest.
+   NOT proved (hence _partial): the success path of execute_sort_plan (sort_buf / write_stream / rebuild_ring /
+   ring_check against exec_plan_r: PlanOk / PlanDie), and the per-event body of stream_winsort, which is not
+   translated (locals by value, `while (stream_step)`).  For those, WinsortGenProofs.drive restates the body by hand
+   around the generated functions and the examples below execute whole runs against the model; C16_sorts,
+   C16_postconditions and C16_never_loses_events therefore apply to the generated code only through (1)-(3) and
+   these executions, not through a theorem. *)
+From OV Require Tools.WinsortPre Gen.Winsort_gen Proofs.WinsortGenProofs.
+
+Theorem C16_ring_from_source :
+  (forall sx st n, (1 <= n)%nat -> WinsortPre.r_size (WinsortPre.ring st) = Z.of_nat n ->
+     length (WinsortPre.r_ev (WinsortPre.ring st)) = n ->
+     exists g, Winsort_gen.ring_reset (Some tt) sx st = WinsortPre.Done tt (WinsortPre.with_ring st g) /\
+               WinsortGenProofs.Rep n 0 g) /\
+  (forall sx st n len, WinsortGenProofs.Rep n len (WinsortPre.ring st) ->
+     exists g, Winsort_gen.ring_add (Some tt) (Some len) sx st = WinsortPre.Done tt (WinsortPre.with_ring st g) /\
+               WinsortGenProofs.Rep n (S len) g).
+Proof. exact WinsortGenProofs.ring_from_source. Qed.
+Print Assumptions C16_ring_from_source.
+
+Theorem C16_find_destination_from_source : forall n len sx st rd m,
+  (2 <= n)%nat -> WinsortGenProofs.Rep n len (WinsortPre.ring st) -> (1 <= len)%nat -> length rd = len ->
+  (forall j, (j < len)%nat -> nth j rd WinsortPre.ev0 = nth (len - 1 - j) (WinsortPre.file st) WinsortPre.ev0) ->
+  exists i0, Winsort_gen.find_destination (Some tt) m sx st = WinsortPre.Done i0 st /\
+    match find_destination n rd m with
+    | Some w => 0 <= i0 /\ WinsortPre.ix_ptr_ev (WinsortPre.r_ev (WinsortPre.ring st)) i0 = Some (len - w)%nat /\ (1 <= w <= len)%nat
+    | None => i0 = -1
+    end.
+Proof. exact WinsortGenProofs.find_destination_gen. Qed.
+Print Assumptions C16_find_destination_from_source.
+
+Theorem C16_sort_plan_refusal_from_source_partial : forall n len sx st rd b,
+  (2 <= n)%nat -> WinsortGenProofs.Rep n len (WinsortPre.ring st) -> (1 <= len)%nat -> length rd = len ->
+  (forall j, (j < len)%nat -> nth j rd WinsortPre.ev0 = nth (len - 1 - j) (WinsortPre.file st) WinsortPre.ev0) ->
+  WinsortPre.sp_bad0 (WinsortPre.plan st) = Some b -> WinsortPre.sp_next (WinsortPre.plan st) = Some len ->
+  (b < len)%nat -> (len <= length (WinsortPre.file st))%nat ->
+  find_destination n rd (min_clock (WinsortPre.between st (Some b) (Some len))) = None ->
+  Winsort_gen.execute_sort_plan (Some tt) sx st = WinsortPre.Fail WinsortPre.E_FAIL.
+Proof. exact WinsortGenProofs.execute_sort_plan_nodest. Qed.
+Print Assumptions C16_sort_plan_refusal_from_source_partial.
+
+(* whole runs of the generated functions (hand-written driver for the untranslated per-event body) against the
+   model: the non-vacuity stream of this file with -n 18 and -n 17, and the stream of C16_idempotent_refuted
+   with -n 5 - the first run sorts, the second run on the sorted file fails, for the generated code too *)
+Example C16_ex_generated_runs :
+  WinsortGenProofs.drive 18 ex1 = winsort 18 ex1 /\ WinsortGenProofs.drive 18 ex1 = Some ex1_out /\
+  WinsortGenProofs.drive 17 ex1 = None /\ winsort 17 ex1 = None /\
+  WinsortGenProofs.drive 5 WinsortProofs.idem_witness = Some WinsortProofs.idem_sorted /\
+  winsort 5 WinsortProofs.idem_witness = Some WinsortProofs.idem_sorted /\
+  WinsortGenProofs.drive 5 WinsortProofs.idem_sorted = None /\ winsort 5 WinsortProofs.idem_sorted = None.
+Proof. vm_compute. repeat split; reflexivity. Qed.
+(* ==== end of block (unit winsort) ==== *)
